@@ -232,6 +232,33 @@ func C19(c *Ctx, r *report.Run) error {
 		}
 		d := docs[0]
 		py.Doc(d.id, d.value)
+		// every component schema: a name listed in required[] must be one of its properties (through allOf) - a variant schema
+		// of a flattened oneof that requires a member of another variant can never be satisfied
+		if comps, ok := model.Ptr(d.value, "/components/schemas"); ok {
+			if cm, ok := comps.(map[string]any); ok {
+				var names []string
+				for n := range cm {
+					names = append(names, n)
+				}
+				sort.Strings(names)
+				for _, n := range names {
+					props, _, required := model.ObjectMembers(d.value, "/components/schemas/"+model.PtrEscape(n))
+					var unknown []string
+					for name := range required {
+						if _, ok := props[name]; !ok {
+							unknown = append(unknown, name)
+						}
+					}
+					sort.Strings(unknown)
+					cell := fmt.Sprintf("%s,component=%s", s.Cell, n)
+					if len(unknown) > 0 {
+						r.Violate(cell+"#required_names", "required_mismatch", fmt.Sprintf("required[] of component %s names %v, which it does not declare as properties", n, unknown), map[string]any{"spec": s, "component": n})
+					} else {
+						r.Case(cell, "required_names_are_properties", len(required) > 0)
+					}
+				}
+			}
+		}
 		for _, rc := range cases[s.Name] {
 			msgName := rc.Msg
 			if msgName == "" {
